@@ -158,6 +158,9 @@ def build(tier):
             if q:
                 pre.append("size in (%d, %d, %d)" % (lo, (lo + hi) // 2, hi))
                 pre.append("ni == mi or ni == 0" if ci else "True")
+            elif fn == "list_roundtrip":
+                # the LIST line needs a concrete size (see hlib): boundary members of the class, not the whole class
+                pre.append("size in (%d, %d, %d, %d, %d)" % (lo, min(lo + 1, hi), (lo + hi) // 2, max(hi - 1, lo), hi))
 
             src += hgen.cond(name, "is_dir: bool, ni: int, size: int, mi: int", pre, f"L.{fn}(is_dir, ni, size, mi)", sig="hb.KEY")
             conds += [Cond(name, "prop", T, group=fn), Cond(name + "__twin", "twin", 60, group=fn)]
